@@ -38,7 +38,7 @@ CHECKS = {
  "C16": ("E2 drip-feed driver", "exploration",
    "model-based property testing (sources under consumption schedules vs data x repeat; Repeat API call sequences vs a 3-line model)",
    "VectorSource, FileSource<u8/f32> and SigMFSource (recording pair and tar archive) are drained through 1-4 page streams under generated consumption schedules for repeat in {0,1,2,3,infinite} and data of 0..14k samples; output, EOF timing and VectorSource marker tags are compared with the model; Repeat::{again,done,count} sequences are model-checked.",
-   "file sizes are whole samples; infinite repeat of empty data excluded; no work() after EOF", "DESIGN.md §5 C16"),
+   "files may end inside a sample (the trailing bytes are dropped); for an infinite repeat of empty data only 'every call returns' is asserted (10 s watchdog); no work() after EOF", "DESIGN.md §5 C16"),
  "C19": ("E2 drip-feed driver", "exploration",
    "property testing of macro-generated code with a per-call step-count oracle; exhaustive enumeration of eof() input states",
    "Ten harness-defined blocks built with #[derive(Block)] (sync 1-2 inputs x 1-3 outputs, sync_tag, default/into fields, generated new() over copy and non-copy outputs) are driven with unequal inputs and unequal output space; every call must move exactly min(shortest input, smallest output space) samples on every stream and name an empty/full stream otherwise; values identify each output port; eof() is enumerated over all 4^n input states.",
@@ -89,7 +89,7 @@ CHECKS = {
  "C14": ("E2 drip-feed driver + E3 reference models + E6", "exploration",
    "round-trip / differential property testing of byte formats (independent LE/BE readers; containers built with generated member order; FIFO and loopback-TCP read segmentation with generated chunk sizes)",
    "Codecs on raw bit patterns; FileSink->FileSource for five sample types under drip schedules; SigMF recording pairs and tar archives with members in generated order plus unrelated and malformed variants; AuEncode->AuDecode and the repository's .au recording; FileSource on a FIFO and TcpSource on loopback with the byte stream cut at generated points incl. 1-byte reads and splits inside a sample; all compared with independent readers of the same bytes.",
-   "FIFO/TCP reads are paced so that blocking reads always find data; AU header layout = the encoder's", "DESIGN.md §5 C14"),
+   "FIFO/TCP reads are paced so that blocking reads always find data (one TCP case in four with a lagging reader of the source's output); unrelated archive members include directories, links, fifos and pax global headers; AU header layout = the encoder's", "DESIGN.md §5 C14"),
 
  "C15": ("E7 fuzz entries (+ E2 drip driver)", "exploration",
    "fuzzing with an in-target oracle: proptest-generated and seed-mutated byte inputs per target plus enumerated degenerate sets (quick); coverage-guided libFuzzer + ASan campaigns on the same entry functions (thorough)",
@@ -143,7 +143,7 @@ def main():
             {"name": "E2 drip-feed driver", "path": "harness/src/drip.rs, harness/src/catalog.rs, harness/src/dripcase.rs",
              "serves_properties": ["C08", "C09", "C10", "C12", "C13", "C16", "C19"],
              "kind_free_text": "plays both neighbours of one block on small streams; generated feed/free/work schedules; per-call observations"},
-            {"name": "E4 schedule explorer", "path": "harness/src/sched.rs (+ /repo src/verif.rs shim)", "serves_properties": ["C03", "C04", "C05", "C07"],
+            {"name": "E4 schedule explorer", "path": "harness/src/sched.rs (+ /repo src/verif.rs shim)", "serves_properties": ["C03", "C04", "C05", "C07", "C17"],
              "kind_free_text": "shuttle coroutine runtime with a custom scheduler fed by a proptest-generated decision stream; fair continuation; lock/unlock/wait/notify/spawn/join/sleep/drop are scheduling points"},
             {"name": "E5 graph generator + reference executor", "path": "harness/src/graphgen.rs", "serves_properties": ["C05", "C06", "C07"],
              "kind_free_text": "recipe -> graph (built twice), sequential reference executor, wrapper blocks for cancellation/failure accounting"},
